@@ -104,13 +104,13 @@ func (fc *FnCtx) strLit(s string) string {
 	if n, ok := fc.strLits[key]; ok {
 		return n
 	}
-	n := sym(fmt.Sprintf("str.lit.%d", len(fc.strLits)))
+	n := sym(fmt.Sprintf("gs.lit.%d", len(fc.strLits)))
 	fc.strLits[key] = n
 	fc.addPre(fmt.Sprintf("(declare-fun %s () Str) ; %q", n, s))
-	fc.addPre(fmt.Sprintf("(assert (= (str.len %s) %s))", n, fc.idxLit(int64(len(s)))))
+	fc.addPre(fmt.Sprintf("(assert (= (gs.len %s) %s))", n, fc.idxLit(int64(len(s)))))
 	if len(s) <= 64 {
 		for i := 0; i < len(s); i++ {
-			fc.addPre(fmt.Sprintf("(assert (= (str.at %s %s) %s))", n, fc.idxLit(int64(i)), bvLit(big.NewInt(int64(s[i])), 8)))
+			fc.addPre(fmt.Sprintf("(assert (= (gs.at %s %s) %s))", n, fc.idxLit(int64(i)), bvLit(big.NewInt(int64(s[i])), 8)))
 		}
 	}
 	// distinct literals denote distinct strings
@@ -242,20 +242,20 @@ func (fc *FnCtx) binop(op token.Token, a, b Val, st *State, pos token.Pos) Val {
 	if isString(ty) {
 		switch op {
 		case token.ADD:
-			fc.declareOnce("str.cat", "(declare-fun str.cat (Str Str) Str)")
-			fc.declareAxiomOnce("str.cat.ax", "str.cat", fmt.Sprintf("(assert (forall ((a Str) (b Str)) (! (= (str.len (str.cat a b)) (%s (str.len a) (str.len b))) :pattern ((str.cat a b)))))", map[bool]string{true: "bvadd", false: "+"}[fc.idxBV()]))
-			return Val{T: app("str.cat", a.T, b.T), Ty: ty}
+			fc.declareOnce("gs.cat", "(declare-fun gs.cat (Str Str) Str)")
+			fc.declareAxiomOnce("gs.cat.ax", "gs.cat", fmt.Sprintf("(assert (forall ((a Str) (b Str)) (! (= (gs.len (gs.cat a b)) (%s (gs.len a) (gs.len b))) :pattern ((gs.cat a b)))))", map[bool]string{true: "bvadd", false: "+"}[fc.idxBV()]))
+			return Val{T: app("gs.cat", a.T, b.T), Ty: ty}
 		case token.LSS, token.LEQ, token.GTR, token.GEQ:
-			fc.declareOnce("str.lt", "(declare-fun str.lt (Str Str) Bool)")
+			fc.declareOnce("gs.lt", "(declare-fun gs.lt (Str Str) Bool)")
 			switch op {
 			case token.LSS:
-				return Val{T: app("str.lt", a.T, b.T), Ty: tBool}
+				return Val{T: app("gs.lt", a.T, b.T), Ty: tBool}
 			case token.GTR:
-				return Val{T: app("str.lt", b.T, a.T), Ty: tBool}
+				return Val{T: app("gs.lt", b.T, a.T), Ty: tBool}
 			case token.LEQ:
-				return Val{T: not(app("str.lt", b.T, a.T)), Ty: tBool}
+				return Val{T: not(app("gs.lt", b.T, a.T)), Ty: tBool}
 			default:
-				return Val{T: not(app("str.lt", a.T, b.T)), Ty: tBool}
+				return Val{T: not(app("gs.lt", a.T, b.T)), Ty: tBool}
 			}
 		}
 	}
@@ -422,6 +422,20 @@ func (fc *FnCtx) shift(op token.Token, a, b Val, st *State, pos token.Pos) Val {
 	}
 	cnt := b.T
 	var big_ string // condition count >= w
+	if b.K != nil {
+		// constant count: no saturation case split needed
+		if n := constBig(b.K); n != nil && n.Sign() >= 0 && n.Cmp(big.NewInt(int64(w))) < 0 {
+			var f string
+			if op == token.SHL {
+				f = "bvshl"
+			} else if isUnsigned(ty) {
+				f = "bvlshr"
+			} else {
+				f = "bvashr"
+			}
+			return Val{T: app(f, a.T, bvLit(n, w)), Ty: ty}
+		}
+	}
 	if cw > w {
 		big_ = app("bvuge", cnt, bvLit(big.NewInt(int64(w)), cw))
 		cnt = app(fmt.Sprintf("(_ extract %d 0)", w-1), cnt)
